@@ -60,6 +60,7 @@ enum Act {
   Count(usize),
   BlockOn(usize),
   BlockOnHandover(usize),
+  BlockOnLate(usize, u64),
   Using(usize),
   UsingPanic(usize),
   DropSched(usize),
@@ -248,6 +249,11 @@ fn parse_act(x: &Sx, c: &Counts) -> ActN {
     "block_on_handover" => {
       need(2);
       Act::BlockOnHandover(parse_ref(&l[1], c.tovecs, "tovec"))
+    }
+    // the future is made now, polled for the first time only MS (virtual) milliseconds later
+    "block_on_late" => {
+      need(3);
+      Act::BlockOnLate(parse_ref(&l[1], c.tovecs, "tovec"), l[2].int() as u64)
     }
     "using" => {
       need(2);
@@ -527,9 +533,13 @@ fn repoll(tv: usize) {
 
 // handover: after the first pending poll the awaiter goes on with a CLONE of the future and drops the handle it polled first
 // (clones share the to_vec state, so whichever handle is polled resolves when the source terminates)
-fn block_on(cx: &Cx, tv: usize, source: &Observable<'static, V>, handover: bool) {
+fn block_on(cx: &Cx, tv: usize, source: &Observable<'static, V>, handover: bool, late_ms: u64) {
   let tvx = atom(tv);
   let fut = source.to_vec();
+  cx.rec.ev("made", vec![tvx.clone()]);
+  if late_ms > 0 {
+    fthread::sleep(Duration::from_millis(late_ms)); // the awaiter does something else first: what the source emits meanwhile belongs to the result
+  }
   let fut2 = fut.clone(); // a second awaiter of the same to_vec state (clones share it): polled once the first has resolved
   let mut fut = Box::pin(fut);
   let mut k = 0usize;
@@ -622,9 +632,11 @@ impl Drop for DropGuard {
     if self.cx.objs.upgrade().is_none() {
       return; // the run is over (a discarded task released together with the objects)
     }
-    self.cx.rec.ev("guard-drop", vec![self.t.clone()]);
-    exec_all(&self.cx, &self.acts);
-    self.cx.rec.ev("guard-end", vec![self.t.clone()]);
+    self.cx.rec.ev("task-drop", vec![self.t.clone()]);
+    if !self.acts.is_empty() {
+      exec_all(&self.cx, &self.acts);
+      self.cx.rec.ev("guard-end", vec![self.t.clone()]);
+    }
   }
 }
 
@@ -693,11 +705,15 @@ fn exec(cx: &Cx, a: &ActN) {
     Act::Post { s, t, acts, guarded } => {
       let (cx2, t2, acts2) = (cx.clone(), t.clone(), acts.clone());
       let tok = Arc::new(CTok::new()); // lives as long as any copy of the task closure
-      let guard = if *guarded { Some(Arc::new(DropGuard { cx: cx.clone(), t: t.clone(), acts: acts.clone() })) } else { None };
+      // every task closure owns a guard whose destructor records `task-drop T` (the moment the scheduler lets go of the last copy
+      // of the task: after it ran, or when it is discarded); a `post-guarded` task runs its actions there instead of in its body
+      let guarded = *guarded;
+      let guard = Arc::new(DropGuard { cx: cx.clone(), t: t.clone(), acts: if guarded { acts.clone() } else { Arc::new(Vec::new()) } });
       let task = move || {
         tok.touch();
+        let _g = &guard;
         cx2.rec.ev("task-start", vec![t2.clone()]);
-        if guard.is_none() {
+        if !guarded {
           exec_all(&cx2, &acts2);
         }
         cx2.rec.ev("task-end", vec![t2.clone()]);
@@ -728,8 +744,9 @@ fn exec(cx: &Cx, a: &ActN) {
       let n = o.penv.subjects[*h].count();
       rec.ev("count", vec![atom(h), atom(n)]);
     }
-    Act::BlockOn(tv) => block_on(cx, *tv, &o.tovecs[*tv], false),
-    Act::BlockOnHandover(tv) => block_on(cx, *tv, &o.tovecs[*tv], true),
+    Act::BlockOn(tv) => block_on(cx, *tv, &o.tovecs[*tv], false, 0),
+    Act::BlockOnLate(tv, ms) => block_on(cx, *tv, &o.tovecs[*tv], false, *ms),
+    Act::BlockOnHandover(tv) => block_on(cx, *tv, &o.tovecs[*tv], true, 0),
     Act::Repoll(tv) => repoll(*tv),
     Act::Using(u) => {
       let s = o.slots.lock().unwrap().get(u).cloned();
